@@ -40,7 +40,8 @@ RULE = ("a case is (format, dataset[, target dataset]); datasets have 0-4 named 
         "names, a name equal to a subject IRI and a name equal to a blank node used in triples, 1-5 triples over a tiny "
         "vocabulary plus (45% of the cases) one or two well-formed RDF collections of length 1-3 each inside one graph, "
         "vocabulary (falsy literals included) spread over the graphs so that triples and blank nodes are shared; "
-        "distinct = distinct case content; non-trivial = at least one named graph holds a triple")
+        "55% of the cases carry serialisation options (document base, per-graph base, bound prefixes; graph names and terms "
+        "lie under the bases); distinct = distinct case content; non-trivial = at least one named graph holds a triple")
 
 # ------------------------------------------------------------------ numbering
 BKEY = {"b1": 8, "b2": 13, "urn:g:1": 103, "g4": 104, "g7": 107,  # blank-node label -> key; id = 2*key+1
@@ -51,7 +52,13 @@ EXTRA_TERMS = {RDF_FIRST: RDF.first, RDF_REST: RDF.rest, RDF_NIL: RDF.nil}
 EXTRA_ID = {tkey(t): i for i, t in EXTRA_TERMS.items()}
 BLABEL = {v: k for k, v in BKEY.items()}
 GIRI = {2 * (100 + i + 1): g for i, g in enumerate(GRAPH_POOL) if isinstance(g, URIRef)}  # 202, 204, 210
+GIRI[212] = URIRef("http://e/g/1")   # graph names lying under the bases below
+GIRI[214] = URIRef("http://e/g2")
 GIRI_ID = {tkey(g): i for i, g in GIRI.items()}
+# serialisation options: spelling choices that must not move a statement (the model ignores them)
+BASES = [None, "http://e/", "http://e/g/", "http://o/"]
+BINDS = [[], [("e", "http://e/")], [("e", "http://e/"), ("g", "urn:g:"), ("eg", "http://e/g/")]]
+NO_OPTS = {"base": 0, "gbase": {}, "bind": 0}
 
 
 def node(x):
@@ -129,11 +136,18 @@ class Numbering:
         return 2 * 998
 
 
-def build(d):
+def build(d, opts=None):
+    opts = opts or NO_OPTS
     ds = Dataset()
+    for pfx, ns in BINDS[opts.get("bind", 0)]:
+        ds.bind(pfx, ns)
     for c in d["graphs"]:
         if c != 0:
-            ds.graph(gname(c))
+            gb = BASES[opts.get("gbase", {}).get(str(c), 0)]
+            if gb is None:
+                ds.graph(gname(c))
+            else:
+                ds.graph(gname(c), base=gb)   # the graph carries its own base
     for s, p, o, c in all_quads(d):
         t = (node(s), node(p), node(o))
         if c == 0:
@@ -162,7 +176,7 @@ FMT = {"nquads": "Nquads", "hext": "Hext", "trig": "Trig", "trix": "Trix", "json
 SUBJ = [2, 4, 24, 17, 27]                 # a b c _:b1 _:b2
 PRED = [6, 8]                             # p q
 OBJ = [2, 4, 24, 17, 27, 10, 12, 14, 18, 20, 22, 28]
-GRAPHS = [202, 204, 210, 207, 209, 2, 17, 27]   # urn:g:1 urn:g:2 urn:g:5 _:urn:g:1 _:g4 <http://e/a> _:b1 _:b2
+GRAPHS = [202, 204, 210, 207, 209, 2, 17, 27, 212, 214]   # + <http://e/g/1> <http://e/g2>; urn:g:1 urn:g:2 urn:g:5 _:urn:g:1 _:g4 <http://e/a> _:b1 _:b2
 EMPTY = {"graphs": [], "quads": []}
 
 
@@ -187,7 +201,7 @@ class C06(Suite):
             "preprocess/serialize, TriXSerializer._writeGraph, jsonld Converter.convert, PatchSerializer.serialize/_diff/"
             "_patch_row; NQuadsParser.parseline, TrigSinkParser.graph, TriXHandler, jsonld Parser._key_to_graph, "
             "HextuplesParser._parse_hextuple, RDFPatchParser.add_or_remove_triple_or_quad")
-    quick_n = 3000
+    quick_n = 2400
     thorough_n = 20000
     timeout_s = 20.0
 
@@ -250,6 +264,17 @@ class C06(Suite):
                 d["lists"].pop()
         return d
 
+    def gen_opts(self, rng, d):
+        """document base (serialize(base=...)), per-graph base (Dataset.graph(name, base=...)), bound prefixes"""
+        if rng.random() < 0.45:
+            return dict(NO_OPTS)
+        base = rng.choice([0, 1, 1, 2, 3])
+        gbase = {}
+        for c in d["graphs"]:
+            if c % 2 == 0 and rng.random() < 0.4:
+                gbase[str(c)] = rng.choice([1, 2, 3])
+        return {"base": base, "gbase": gbase, "bind": rng.choice([0, 1, 2])}
+
     def gen(self, rng, i):
         fmt = rng.choice(["nquads", "hext", "trig", "trix", "json-ld", "patch", "patchdiff", "patchdiff"])
         if fmt == "patchdiff":
@@ -280,7 +305,7 @@ class C06(Suite):
                 self.add_lists(rng, tgt, 2, 1.0)
             else:
                 tgt["lists"] = []
-            return {"fmt": fmt, "src": src, "tgt": tgt}
+            return {"fmt": fmt, "src": src, "tgt": tgt, "opts": self.gen_opts(rng, src)}
         src = self.gen_dataset(rng)
         if fmt == "trig":
             # _:urn:g:1 is not a legal Turtle blank-node label (TriG writes labels verbatim): use _:g7 there
@@ -289,21 +314,25 @@ class C06(Suite):
         if fmt == "json-ld":
             src["quads"] = [q for q in src["quads"] if not bnode_edge(q)]
         self.add_lists(rng, src)
-        return {"fmt": fmt, "src": src, "tgt": EMPTY}
+        return {"fmt": fmt, "src": src, "tgt": EMPTY, "opts": self.gen_opts(rng, src)}
 
     # ------------------------------------------------------------ implementation
     def run_impl(self, case):
         fmt = case["fmt"]
+        opts = case.get("opts") or NO_OPTS
+        base = BASES[opts.get("base", 0)]
+        kw = {} if base is None else {"base": base}
         try:
-            ds = build(case["src"])
+            ds = build(case["src"], opts)
             if fmt == "patchdiff":
-                tgt = build(case["tgt"])
-                text = ds.serialize(format="patch", target=tgt)
+                tgt = build(case["tgt"], opts)
+                text = ds.serialize(format="patch", target=tgt, **kw)
                 ds.parse(data=text, format="patch")
                 return {"exact": True, "quads": content(ds)}
-            text = ds.serialize(format=fmt)
+            text = ds.serialize(format=fmt, **kw)
             back = Dataset()
-            back.parse(data=text, format=fmt)
+            # a JSON-LD document written against a base does not record it: the reader supplies the same base
+            back.parse(data=text, format=fmt, **(kw if fmt == "json-ld" else {}))
             return {"exact": False, "quads": content(back)}
         except Exception as e:  # noqa: BLE001
             return {"exact": fmt == "patchdiff", "quads": [[1994, 1994, 1994, 1994]], "error": type(e).__name__ + ": " + str(e)[:200]}
@@ -327,6 +356,13 @@ class C06(Suite):
         src = case["src"]
         qs = all_quads(src)
         f = {"fmt_" + case["fmt"]: 1, "quads": len(qs), "named_graphs": len(src["graphs"])}
+        opts = case.get("opts") or NO_OPTS
+        f["opt_base"] = int(opts.get("base", 0) != 0)
+        f["opt_graph_base"] = int(bool(opts.get("gbase")))
+        f["opt_bind"] = int(opts.get("bind", 0) != 0)
+        b = BASES[opts.get("base", 0)]
+        f["opt_graph_name_under_base_with_other_graph_base"] = int(any(
+            b is not None and str(gname(int(c))).startswith(b) and BASES[gb] != b for c, gb in opts.get("gbase", {}).items()))
         ls = src.get("lists", []) + case["tgt"].get("lists", [])
         f["rdf_lists"] = len(ls)
         f["rdf_list_in_named_graph"] = sum(1 for L in ls if L["g"] != 0)
@@ -355,6 +391,15 @@ class C06(Suite):
         return f
 
     def shrink(self, case):
+        opts = case.get("opts") or NO_OPTS
+        if opts != NO_OPTS:
+            yield dict(case, opts=dict(NO_OPTS))
+            if opts.get("bind"):
+                yield dict(case, opts=dict(opts, bind=0))
+            if opts.get("base"):
+                yield dict(case, opts=dict(opts, base=0))
+            for k in list(opts.get("gbase", {})):
+                yield dict(case, opts=dict(opts, gbase={a: b for a, b in opts["gbase"].items() if a != k}))
         for key in ("src", "tgt"):
             d = case[key]
             for i in range(len(d["quads"])):
@@ -386,6 +431,15 @@ class C06(Suite):
         for a in dsets:
             for b in dsets:
                 yield {"fmt": "patchdiff", "src": a, "tgt": b}
+        # serialisation options: every (document base, graph base, binding) over a dataset whose graph names lie under the bases
+        d = {"graphs": [212, 214, 202], "quads": [[2, 6, 4, 0], [2, 6, 24, 212], [4, 8, 12, 214], [2, 6, 4, 202]], "lists": []}
+        for base in range(len(BASES)):
+            for g1 in range(len(BASES)):
+                for g2 in range(len(BASES)):
+                    for bind in range(len(BINDS)):
+                        gb = {k: v for k, v in (("212", g1), ("214", g2)) if v}
+                        for fmt in ("nquads", "hext", "trig", "trix", "json-ld", "patch"):
+                            yield {"fmt": fmt, "src": d, "tgt": EMPTY, "opts": {"base": base, "gbase": gb, "bind": bind}}
         # one collection of length 1..3 in the default / IRI-named / blank-node-named graph, next to a plain triple
         for g in cids:
             for n in (1, 2, 3):
